@@ -231,6 +231,14 @@ def str_of(p: Poly) -> Optional[str]:
     return None
 
 
+def _plain_name(p: Poly) -> Optional[str]:
+    """The identifier when the value is an unbound global name that starts with a capital (a class)."""
+    a = single_atom(p)
+    if a is not None and a[0] == "var" and isinstance(a[1], str) and (a[1][:1].isupper() or a[1] == "object") and a[1].replace("_", "").isalnum():
+        return a[1]
+    return None
+
+
 def single_atom(p: Poly) -> Optional[Tuple[Any, ...]]:
     if len(p.terms) == 1:
         (m, cf), = p.terms.items()
@@ -835,7 +843,7 @@ class PyFlow:
                                 out.append((q2, not neg))
                                 continue
                             a = single_atom(x)
-                            if a is not None and a[0] in ("str", "tpl", "new") or x.const_value() is not None:
+                            if a is not None and a[0] in ("str", "tpl", "new") or x.const_value() is not None or _plain_name(x) is not None:
                                 out.append((q2, neg))
                                 continue
                             out.extend(self._fork(q2, ("isnone", x), not neg))
@@ -863,6 +871,9 @@ class PyFlow:
                                 out.append((q2, (cv in members) != neg))
                             else:
                                 out.extend(self._fork(q2, ("in", l, members), not neg))
+                        elif a is not None and a[0] in ("dict", "tuple") and _plain_name(l) is not None and all(_plain_name(x) is not None for x in a[1]) and len({_plain_name(x) for x in a[1]}) == len(a[1]):
+                            # membership of a class / function name in a table keyed by distinct names
+                            out.append((q2, (_plain_name(l) in {_plain_name(x) for x in a[1]}) != neg))
                         else:
                             out.extend(self._fork(q2, ("contains", r, l), not neg))
                     else:
